@@ -251,6 +251,7 @@ class CrashProfile(Profile):
         w = run.world
         w.snapshot("cw")
         # discover the effect trace by a dry run in a branch (then restore)
+        tree_before = {t[0]: t for t in w.tree()}
         dry = run.E.branch(e, None)
         run.logev("dry", dry["exit"], dry["trace"], dry["obs"])
         if dry["exit"] != 0 or dry["obs"] is not True:
@@ -259,6 +260,16 @@ class CrashProfile(Profile):
             return
         trace = dry["trace"]
         run.stats["writes_enumerated"] += 1
+        # untraced-effect probe: every path the write changed on disk must appear in its effect trace, otherwise
+        # a mutating call escaped the seam layer (and with it crash enumeration)
+        tree_after = {t[0]: t for t in w.tree()}
+        changed = {k for k in set(tree_before) | set(tree_after) if tree_before.get(k) != tree_after.get(k)}
+        traced = {os.path.relpath(os.path.join(w.root, t[1]), w.disks) for t in trace if t[1]}
+        untraced = sorted(changed - traced)
+        run.stats["untraced_effects"] += len(untraced)
+        run.stats["untraced_effect_probes"] += 1
+        if untraced:
+            run.sample({"untraced_effects": untraced[:5]})
         w.restore("cw")
         pts = self._points(trace, run.tier) if step["points"] == "all" else step["points"]
         g = getter(cfg)
